@@ -34,6 +34,8 @@ class Canon:
     def __init__(self, repo):
         self.repo = repo
         self._alias_tables = {}
+        self._records = {}
+        self._attr_stores = None
         self._getter = {}
         # path environment: (id(frame), local name) -> constant ast node, set by
         # walkers that follow one path (string/bool locals such as `pool`)
@@ -45,6 +47,66 @@ class Canon:
         if c is not None and c.is_subclass_of('Instrument'):
             return 'Instrument'
         return name
+
+    # ---- plain record classes ----------------------------------------
+    def record_fields(self, cls_name):
+        """{field: position of the constructor argument stored in it} for a class whose
+        constructor only files its arguments away (`self.f = param`, one statement each) and
+        whose fields are written nowhere else in the package; None for any other class"""
+        if cls_name in self._records:
+            return self._records[cls_name]
+        self._records[cls_name] = None
+        c = self.repo.classes.get(cls_name)
+        init = c.find_method('__init__') if c is not None else None
+        if init is None or init.cls is not c or cls_name in SINGLETONS:
+            return None
+        params = [a.arg for a in init.node.args.args[1:]]
+        if init.node.args.vararg or init.node.args.kwarg or init.node.args.kwonlyargs or not params:
+            return None
+        fields = {}
+        for st in init.node.body:
+            if isinstance(st, ast.Expr) and isinstance(st.value, ast.Constant):
+                continue
+            if not (isinstance(st, ast.Assign) and len(st.targets) == 1 and isinstance(st.targets[0], ast.Attribute)
+                    and isinstance(st.targets[0].value, ast.Name) and st.targets[0].value.id == 'self'
+                    and isinstance(st.value, ast.Name) and st.value.id in params
+                    and st.targets[0].attr not in fields):
+                return None
+            fields[st.targets[0].attr] = params.index(st.value.id)
+        if not fields:
+            return None
+        # a field may be written only by this constructor: a store through `self` in another class
+        # (not a subclass) is to another object; a store through anything else could be to this one
+        if self._attr_stores is None:
+            self._attr_stores = {}
+            for f in self.repo.all_functions(include_inlined=True):
+                for n in ast.walk(f.node):
+                    if isinstance(n, ast.Attribute) and isinstance(n.ctx, (ast.Store, ast.Del)):
+                        owner = f.cls.name if (f.cls is not None and isinstance(n.value, ast.Name)
+                                               and n.value.id == 'self') else None
+                        self._attr_stores.setdefault(n.attr, []).append((owner, f.qual))
+        for fld in fields:
+            for owner, qual in self._attr_stores.get(fld, []):
+                if qual == init.qual:
+                    continue
+                oc = self.repo.classes.get(owner) if owner else None
+                if oc is None or oc is c or oc.is_subclass_of(cls_name):
+                    return None
+        self._records[cls_name] = (fields, len(params))
+        return self._records[cls_name]
+
+    def record_field(self, base, attr):
+        """`Cls(a, b, c).second` -> 'b' on canonical strings; None when not applicable"""
+        m = re.match(r'([A-Za-z_]\w*)\(', base)
+        if not m or not base.endswith(')'):
+            return None
+        rf = self.record_fields(m.group(1))
+        if rf is None or attr not in rf[0]:
+            return None
+        parts = tuple_parts(base[m.end() - 1:])
+        if parts is None or len(parts) != rf[1] or any(re.match(r'\*|[A-Za-z_]\w*=', x) for x in parts):
+            return None
+        return parts[rf[0][attr]]
 
     # ---- class alias tables -------------------------------------------
     def alias_table(self, cls):
@@ -176,6 +238,9 @@ class Canon:
                 return next(iter(names))
         if isinstance(e, ast.Attribute):
             base = self.c(e.value, frame, d)
+            comp = self.record_field(base, e.attr)            # Ctx(a, b).second is b
+            if comp is not None:
+                return comp
             return self._rewrite(base + '.' + e.attr)
         if isinstance(e, ast.Subscript):
             base = self.c(e.value, frame, d)
@@ -304,7 +369,11 @@ class Canon:
                 if isinstance(n, ast.Assign):
                     tgt_is_name = any(isinstance(t, ast.Name) and t.id == e.id for t in n.targets)
                     if tgt_is_name:
-                        alts.add(self.p(n.value, frame, d, s2))
+                        from .paths import stale_copy
+                        if len(defs) == 1 and stale_copy(frame.func, e.id, n):
+                            alts.add('old(%s)' % self.p(n.value, frame, d, s2))     # the value BEFORE a later write
+                        else:
+                            alts.add(self.p(n.value, frame, d, s2))
                     else:
                         idx = None
                         for t in n.targets:
@@ -339,7 +408,11 @@ class Canon:
                 ts = {self.class_name(t) for t in self.repo.expr_types(e, frame.func)}
                 if len(ts) == 1 and next(iter(ts)) in SINGLETONS:
                     return next(iter(ts))
-            return self._rewrite(self.p(e.value, frame, d, seen) + '.' + e.attr)
+            base = self.p(e.value, frame, d, seen)
+            comp = self.record_field(base, e.attr)
+            if comp is not None:
+                return comp
+            return self._rewrite(base + '.' + e.attr)
         if isinstance(e, ast.Subscript):
             src = copy_source(e, order=True)
             if src is not None:
@@ -677,6 +750,14 @@ def _elem_of(it):
 
 def tuple_component(s, j):
     """component j of a tuple display string '(a, b, c)'; None when s is not one"""
+    parts = tuple_parts(s)
+    if parts is None or len(parts) < 2 or j >= len(parts):
+        return None
+    return parts[j]
+
+
+def tuple_parts(s):
+    """the top-level components of '(a, b, c)'; None when s is not one bracketed group"""
     if not (s.startswith('(') and s.endswith(')')):
         return None
     depth = 0
@@ -701,9 +782,7 @@ def tuple_component(s, j):
             cur += ch
     if cur.strip():
         parts.append(cur.strip())
-    if len(parts) < 2 or j >= len(parts):
-        return None
-    return parts[j]
+    return parts
 
 
 def flatten_iter(itp):
